@@ -102,4 +102,279 @@ Proof.
   symmetry. apply entry4_flat; [exact Li|apply (norm_ints_lt _ _ _ Hw)].
 Qed.
 
+(* ---- pairs of integers and slices (no None): the result is the operator y with y[is', js'] = x[src rows, src cols] ---- *)
+Definition is_slice_item (i : ixitem) : bool := match i with ISlice _ _ _ => true | _ => false end.
+(* per pair: the mode map on the merged index, the (rows, cols) shape of the pair in the result, whether the pair is kept *)
+Fixpoint pair_fs (x : ttm R) (rows cols : list ixitem) : option (list modemap * list (nat * nat) * list bool) :=
+  match x, rows, cols with
+  | [], [], [] => Some ([], [], [])
+  | c :: ct, IInt z :: rt, IInt z2 :: lt =>
+      match norm_int (mm c) z, norm_int (nm c) z2, pair_fs ct rt lt with
+      | Some j, Some j2, Some (fs, shp, ks) => Some ((1%nat, fun _ : nat => Some (j * nm c + j2)%nat) :: fs, (1%nat, 1%nat) :: shp, false :: ks)
+      | _, _, _ => None
+      end
+  | c :: ct, ISlice a b s :: rt, ISlice a2 b2 s2 :: lt =>
+      match slice_pos (mm c) a b s, slice_pos (nm c) a2 b2 s2, pair_fs ct rt lt with
+      | Some (st, sp, len), Some (st2, sp2, len2), Some (fs, shp, ks) =>
+          Some ((len * len2, fun k => Some ((st + (k / len2) * sp) * nm c + (st2 + (k mod len2) * sp2)))%nat :: fs, (len, len2) :: shp, true :: ks)
+      | _, _, _ => None
+      end
+  | _, _, _ => None
+  end.
+Fixpoint true_positions (i : nat) (ks : list bool) : list nat :=
+  match ks with [] => [] | b :: t => (if b then [i] else []) ++ true_positions (S i) t end.
+
+Lemma gi_loop4_pairs (x : ttm R) : forall rows cols racc shp i excl fs pshp ks, pair_fs x rows cols = Some (fs, pshp, ks) ->
+  gi_loop4 rows cols x racc shp i excl = inr (rev racc ++ remaps fs (flatM x), rev shp ++ pshp, excl ++ true_positions i ks).
+Proof.
+  induction x as [|c ct IH]; intros rows cols racc shp i excl fs pshp ks H.
+  - destruct rows; [|simpl in H; destruct i0; discriminate]. destruct cols; [|discriminate]. inversion H; subst.
+    cbn. rewrite !app_nil_r. reflexivity.
+  - destruct rows as [|r rt]; [discriminate|]. destruct cols as [|cl lt]; [destruct r; discriminate|].
+    destruct r as [z|a b s| |]; try discriminate; destruct cl as [z2|a2 b2 s2| |]; try discriminate; cbn [pair_fs] in H.
+    + destruct (norm_int (mm c) z) as [j|] eqn:E1; [|discriminate]. destruct (norm_int (nm c) z2) as [j2|] eqn:E2; [|discriminate].
+      destruct (pair_fs ct rt lt) as [[[fs' shp'] ks']|] eqn:E; [|discriminate]. inversion H; subst.
+      cbn [gi_loop4]. rewrite E1, E2. rewrite (IH rt lt _ _ _ _ fs' shp' ks' E).
+      cbn [rev flatM map remaps true_positions app]. fold (flatM ct). rewrite <- !app_assoc. reflexivity.
+    + destruct (slice_pos (mm c) a b s) as [[[st sp] len]|] eqn:E1; [|discriminate].
+      destruct (slice_pos (nm c) a2 b2 s2) as [[[st2 sp2] len2]|] eqn:E2; [|discriminate].
+      destruct (pair_fs ct rt lt) as [[[fs' shp'] ks']|] eqn:E; [|discriminate]. inversion H; subst.
+      cbn [gi_loop4]. rewrite E1, E2. rewrite (IH rt lt _ _ _ _ fs' shp' ks' E).
+      cbn [rev flatM map remaps true_positions app]. fold (flatM ct). rewrite <- !app_assoc. reflexivity.
+Qed.
+
+Lemma pair_fs_lengths (x : ttm R) : forall rows cols fs shp ks, pair_fs x rows cols = Some (fs, shp, ks) ->
+  length rows = length x /\ length cols = length x /\ length fs = length x /\ length shp = length x /\ length ks = length x.
+Proof.
+  induction x as [|c ct IH]; intros rows cols fs shp ks H.
+  - destruct rows; [|simpl in H; destruct i; discriminate]. destruct cols; [|discriminate]. inversion H. repeat split; reflexivity.
+  - destruct rows as [|r rt]; [discriminate|]. destruct cols as [|cl lt]; [destruct r; discriminate|].
+    destruct r as [z|a b s| |]; try discriminate; destruct cl as [z2|a2 b2 s2| |]; try discriminate; cbn [pair_fs] in H.
+    + destruct (norm_int (mm c) z); [|discriminate]. destruct (norm_int (nm c) z2); [|discriminate].
+      destruct (pair_fs ct rt lt) as [[[fs' shp'] ks']|] eqn:E; [|discriminate]. inversion H; subst.
+      destruct (IH _ _ _ _ _ E) as [A1 [A2 [A3 [A4 A5]]]]. cbn [length]. repeat split; lia.
+    + destruct (slice_pos (mm c) a b s) as [[[st sp] len]|]; [|discriminate]. destruct (slice_pos (nm c) a2 b2 s2) as [[[st2 sp2] len2]|]; [|discriminate].
+      destruct (pair_fs ct rt lt) as [[[fs' shp'] ks']|] eqn:E; [|discriminate]. inversion H; subst.
+      destruct (IH _ _ _ _ _ E) as [A1 [A2 [A3 [A4 A5]]]]. cbn [length]. repeat split; lia.
+Qed.
+
+Fixpoint kept_of {A} (l : list A) (ks : list bool) : list A :=
+  match l, ks with a :: t, b :: kt => (if b then [a] else []) ++ kept_of t kt | _, _ => [] end.
+(* the source row / column multi-index of the result position (is', js') *)
+Fixpoint pair_src (x : ttm R) (rows cols : list ixitem) (is' js' : list nat) : list nat * list nat :=
+  match x, rows, cols with
+  | c :: ct, IInt z :: rt, IInt z2 :: lt =>
+      let '(ri, ci) := pair_src ct rt lt is' js' in
+      (match norm_int (mm c) z with Some j => j | None => O end :: ri, match norm_int (nm c) z2 with Some j => j | None => O end :: ci)
+  | c :: ct, ISlice a b s :: rt, ISlice a2 b2 s2 :: lt =>
+      let '(ri, ci) := pair_src ct rt lt (tl is') (tl js') in
+      (match slice_pos (mm c) a b s with Some (st, sp, _) => (st + hd O is' * sp)%nat | None => O end :: ri,
+       match slice_pos (nm c) a2 b2 s2 with Some (st, sp, _) => (st + hd O js' * sp)%nat | None => O end :: ci)
+  | _, _, _ => ([], [])
+  end.
+
+Lemma divmod_merge i' j' len2 : (j' < len2)%nat -> ((i' * len2 + j') / len2 = i' /\ (i' * len2 + j') mod len2 = j')%nat.
+Proof.
+  intros H. assert (len2 <> 0)%nat by lia. split.
+  - rewrite Nat.div_add_l by assumption. rewrite Nat.div_small by exact H. lia.
+  - rewrite Nat.add_comm, Nat.mod_add by assumption. apply Nat.mod_small. exact H.
+Qed.
+
+Lemma fullidx_pairs (x : ttm R) : forall rows cols fs shp ks i excl is' js',
+  pair_fs x rows cols = Some (fs, shp, ks) ->
+  (forall p, (p < length ks)%nat -> memb (i + p) excl = nth p ks false) ->
+  length is' = length (kept_of shp ks) -> Forall2 lt js' (map snd (kept_of shp ks)) ->
+  nkept i (remaps fs (flatM x)) excl = length (kept_of shp ks) /\
+  map_idx fs (fullidx i (remaps fs (flatM x)) excl (merge_idx (map snd (kept_of shp ks)) is' js'))
+  = Some (merge_idx (shapeN x) (fst (pair_src x rows cols is' js')) (snd (pair_src x rows cols is' js'))).
+Proof.
+  induction x as [|c ct IH]; intros rows cols fs shp ks i excl is' js' H He Hli HF.
+  - destruct rows; [|simpl in H; destruct i0; discriminate]. destruct cols; [|discriminate]. inversion H; subst. split; reflexivity.
+  - destruct rows as [|r rt]; [discriminate|]. destruct cols as [|cl lt]; [destruct r; discriminate|].
+    destruct r as [z|a b s| |]; try discriminate; destruct cl as [z2|a2 b2 s2| |]; try discriminate; cbn [pair_fs] in H.
+    + destruct (norm_int (mm c) z) as [j|] eqn:E1; [|discriminate]. destruct (norm_int (nm c) z2) as [j2|] eqn:E2; [|discriminate].
+      destruct (pair_fs ct rt lt) as [[[fs' shp'] ks']|] eqn:E; [|discriminate]. inversion H; subst. clear H.
+      cbn [kept_of app] in Hli, HF |- *.
+      assert (Hm : memb i excl = false) by (rewrite <- (Nat.add_0_r i); rewrite (He 0%nat) by (simpl; lia); reflexivity).
+      assert (He' : forall p, (p < length ks')%nat -> memb (S i + p) excl = nth p ks' false).
+      { intros p Hp. replace (S i + p)%nat with (i + S p)%nat by lia. rewrite (He (S p)) by (simpl; lia). reflexivity. }
+      destruct (IH rt lt fs' shp' ks' (S i) excl is' js' E He' Hli HF) as [H1 H2].
+      cbn [flatM map remaps nkept fullidx map_idx pair_src shapeN merge_idx]. fold (flatM ct) (shapeN ct).
+      unfold keptb. cbn [remap_core nn]. rewrite Hm. cbn [Nat.eqb negb andb].
+      rewrite E1, E2. destruct (pair_src ct rt lt is' js') as [ri ci] eqn:Es. cbn [fst snd] in *.
+      rewrite H1, H2. split; reflexivity.
+    + destruct (slice_pos (mm c) a b s) as [[[st sp] len]|] eqn:E1; [|discriminate].
+      destruct (slice_pos (nm c) a2 b2 s2) as [[[st2 sp2] len2]|] eqn:E2; [|discriminate].
+      destruct (pair_fs ct rt lt) as [[[fs' shp'] ks']|] eqn:E; [|discriminate]. inversion H; subst. clear H.
+      cbn [kept_of app map snd length] in Hli, HF |- *.
+      destruct is' as [|i' it]; [discriminate|]. destruct js' as [|j' jt]; [inversion HF|].
+      inversion HF as [|? ? ? ? Hj HF']; subst. simpl in Hli.
+      assert (Hm : memb i excl = true) by (rewrite <- (Nat.add_0_r i); rewrite (He 0%nat) by (simpl; lia); reflexivity).
+      assert (He' : forall p, (p < length ks')%nat -> memb (S i + p) excl = nth p ks' false).
+      { intros p Hp. replace (S i + p)%nat with (i + S p)%nat by lia. rewrite (He (S p)) by (simpl; lia). reflexivity. }
+      destruct (IH rt lt fs' shp' ks' (S i) excl it jt E He' ltac:(lia) HF') as [H1 H2].
+      cbn [flatM map remaps nkept fullidx map_idx pair_src shapeN merge_idx hd tl]. fold (flatM ct) (shapeN ct).
+      unfold keptb. cbn [remap_core nn]. rewrite Hm. rewrite andb_false_r. cbn [negb].
+      rewrite E1, E2. destruct (pair_src ct rt lt it jt) as [ri ci] eqn:Es. cbn [fst snd] in *.
+      rewrite H1, H2. destruct (divmod_merge i' j' len2 Hj) as [D1 D2]. rewrite D1, D2. split; reflexivity.
+Qed.
+
+(* the number of cores reduce_dims returns *)
+Lemma rd_loop_length (rest : tt R) : forall i carry racc excl, (racc <> [] \/ (0 < nkept i rest excl)%nat) ->
+  length (rd_loop i rest carry racc excl) = (length racc + nkept i rest excl)%nat.
+Proof.
+  induction rest as [|c0 cs IH]; intros i carry racc excl Hk.
+  - cbn [rd_loop nkept]. rewrite rev_length. lia.
+  - cbn [rd_loop]. set (c := match carry with Some m => absorb_l m c0 | None => c0 end).
+    assert (Hnn : nn c = nn c0) by (unfold c; destruct carry; reflexivity).
+    cbn [nkept] in *. unfold keptb in *. rewrite Hnn.
+    destruct (Nat.eqb (nn c0) 1 && negb (memb i excl)) eqn:Eb; cbn [negb] in *.
+    + destruct ((r1 c <? r0 c)%nat || is_nil cs) eqn:Eo.
+      * destruct racc as [|l racc'].
+        -- destruct cs as [|c1 cs']; cbn [is_nil].
+           ++ exfalso. destruct Hk as [Hk|Hk]; [congruence|]. cbn [nkept] in Hk. lia.
+           ++ rewrite IH by (right; destruct Hk as [Hk|Hk]; [congruence|lia]). cbn [length]. lia.
+        -- rewrite IH by (left; discriminate). cbn [length]. lia.
+      * rewrite IH by (destruct Hk as [Hk|Hk]; [left; exact Hk|right; lia]). lia.
+    + rewrite IH by (left; discriminate). cbn [length]. lia.
+Qed.
+Lemma reduce_dims_length (x : tt R) excl : (0 < nkept 0 x excl)%nat -> length (reduce_dims x excl) = nkept 0 x excl.
+Proof. intros H. unfold reduce_dims. rewrite rd_loop_length by (right; exact H). reflexivity. Qed.
+
+Lemma memb_true_positions (ks : list bool) : forall i p, (p < length ks)%nat -> memb (i + p) (true_positions i ks) = nth p ks false.
+Proof.
+  induction ks as [|b t IH]; intros i p Hp; [simpl in Hp; lia|].
+  cbn [true_positions]. unfold memb in *. rewrite existsb_app.
+  destruct p as [|p].
+  - rewrite Nat.add_0_r. cbn [nth].
+    assert (E : existsb (Nat.eqb i) (true_positions (S i) t) = false).
+    { clear. generalize (S i) (Nat.lt_succ_diag_r i). induction t as [|b t IHt]; intros j Hj; [reflexivity|]. cbn [true_positions]. rewrite existsb_app.
+      rewrite (IHt (S j)) by lia. destruct b; simpl; [destruct (Nat.eqb_spec i j); [lia|reflexivity]|reflexivity]. }
+    rewrite E, orb_false_r. destruct b; simpl; [rewrite Nat.eqb_refl; reflexivity|reflexivity].
+  - cbn [nth]. replace (i + S p)%nat with (S i + p)%nat by lia. rewrite (IH (S i) p) by (simpl in Hp; lia).
+    destruct b; cbn [existsb orb]; [|reflexivity]. destruct (Nat.eqb_spec (S i + p) i); [lia|reflexivity].
+Qed.
+Lemma true_positions_nonempty (ks : list bool) : forall i, existsb (fun b => b) ks = true -> true_positions i ks <> [].
+Proof. induction ks as [|b t IH]; intros i H; [discriminate|]. cbn [true_positions]. destruct b; [discriminate|]. simpl in H. cbn [app]. apply IH. exact H. Qed.
+
+Lemma keep_shapes_pairs (x : ttm R) : forall rows cols fs shp ks i excl, pair_fs x rows cols = Some (fs, shp, ks) ->
+  (forall p, (p < length ks)%nat -> memb (i + p) excl = nth p ks false) ->
+  keep_shapes i (remaps fs (flatM x)) shp excl = kept_of shp ks.
+Proof.
+  induction x as [|c ct IH]; intros rows cols fs shp ks i excl H He.
+  - destruct rows; [|simpl in H; destruct i0; discriminate]. destruct cols; [|discriminate]. inversion H; subst. reflexivity.
+  - destruct rows as [|r rt]; [discriminate|]. destruct cols as [|cl lt]; [destruct r; discriminate|].
+    assert (He' : forall ks' b0, ks = b0 :: ks' -> forall p, (p < length ks')%nat -> memb (S i + p) excl = nth p ks' false).
+    { intros ks' b0 -> p Hp. replace (S i + p)%nat with (i + S p)%nat by lia. rewrite (He (S p)) by (simpl; lia). reflexivity. }
+    assert (Hm : forall ks' b0, ks = b0 :: ks' -> memb i excl = b0).
+    { intros ks' b0 ->. rewrite <- (Nat.add_0_r i). rewrite (He 0%nat) by (simpl; lia). reflexivity. }
+    destruct r as [z|a b s| |]; try discriminate; destruct cl as [z2|a2 b2 s2| |]; try discriminate; cbn [pair_fs] in H.
+    + destruct (norm_int (mm c) z) as [j|]; [|discriminate]. destruct (norm_int (nm c) z2) as [j2|]; [|discriminate].
+      destruct (pair_fs ct rt lt) as [[[fs' shp'] ks']|] eqn:E; [|discriminate]. inversion H; subst.
+      cbn [flatM map remaps keep_shapes kept_of]. fold (flatM ct). cbn [remap_core nn]. rewrite (Hm ks' false eq_refl). cbn [Nat.eqb negb andb app].
+      apply (IH rt lt fs' shp' ks' (S i) excl E (He' ks' false eq_refl)).
+    + destruct (slice_pos (mm c) a b s) as [[[st sp] len]|]; [|discriminate]. destruct (slice_pos (nm c) a2 b2 s2) as [[[st2 sp2] len2]|]; [|discriminate].
+      destruct (pair_fs ct rt lt) as [[[fs' shp'] ks']|] eqn:E; [|discriminate]. inversion H; subst.
+      cbn [flatM map remaps keep_shapes kept_of]. fold (flatM ct). cbn [remap_core nn]. rewrite (Hm ks' true eq_refl). rewrite andb_false_r. cbn [app]. f_equal.
+      apply (IH rt lt fs' shp' ks' (S i) excl E (He' ks' true eq_refl)).
+Qed.
+
+Lemma pair_fs_no_ell (x : ttm R) : forall rows cols r, pair_fs x rows cols = Some r -> filter is_ell (rows ++ cols) = [].
+Proof.
+  intros rows cols r H.
+  assert (A : forall (x0 : ttm R) rows0 cols0 r0, pair_fs x0 rows0 cols0 = Some r0 -> filter is_ell rows0 = [] /\ filter is_ell cols0 = []).
+  { clear. induction x0 as [|c ct IH]; intros rows cols r H.
+    - destruct rows; [|simpl in H; destruct i; discriminate]. destruct cols; [|discriminate]. split; reflexivity.
+    - destruct rows as [|r0 rt]; [discriminate|]. destruct cols as [|cl lt]; [destruct r0; discriminate|].
+      destruct r0 as [z|a b s| |]; try discriminate; destruct cl as [z2|a2 b2 s2| |]; try discriminate; cbn [pair_fs] in H.
+      + destruct (norm_int (mm c) z); [|discriminate]. destruct (norm_int (nm c) z2); [|discriminate].
+        destruct (pair_fs ct rt lt) as [[[fs' shp'] ks']|] eqn:E; [|discriminate]. destruct (IH _ _ _ E). simpl. split; assumption.
+      + destruct (slice_pos (mm c) a b s) as [[[? ?] ?]|]; [|discriminate]. destruct (slice_pos (nm c) a2 b2 s2) as [[[? ?] ?]|]; [|discriminate].
+        destruct (pair_fs ct rt lt) as [[[fs' shp'] ks']|] eqn:E; [|discriminate]. destruct (IH _ _ _ E). simpl. split; assumption. }
+  destruct (A x rows cols r H) as [A1 A2]. rewrite filter_app, A1, A2. reflexivity.
+Qed.
+
+Lemma pair_src_props (x : ttm R) : forall rows cols fs shp ks is' js', pair_fs x rows cols = Some (fs, shp, ks) ->
+  length is' = length (kept_of shp ks) -> Forall2 lt js' (map snd (kept_of shp ks)) ->
+  length (fst (pair_src x rows cols is' js')) = length x /\ Forall2 lt (snd (pair_src x rows cols is' js')) (shapeN x).
+Proof.
+  induction x as [|c ct IH]; intros rows cols fs shp ks is' js' H Hl HF.
+  - destruct rows; [|simpl in H; destruct i; discriminate]. destruct cols; [|discriminate]. split; [reflexivity|constructor].
+  - destruct rows as [|r rt]; [discriminate|]. destruct cols as [|cl lt]; [destruct r; discriminate|].
+    destruct r as [z|a b s| |]; try discriminate; destruct cl as [z2|a2 b2 s2| |]; try discriminate; cbn [pair_fs] in H.
+    + destruct (norm_int (mm c) z) as [j|] eqn:E1; [|discriminate]. destruct (norm_int (nm c) z2) as [j2|] eqn:E2; [|discriminate].
+      destruct (pair_fs ct rt lt) as [[[fs' shp'] ks']|] eqn:E; [|discriminate]. inversion H; subst.
+      cbn [kept_of app] in Hl, HF. destruct (IH rt lt fs' shp' ks' is' js' E Hl HF) as [H1 H2].
+      cbn [pair_src shapeN map]. fold (shapeN ct). rewrite E1, E2. destruct (pair_src ct rt lt is' js') as [ri ci]. cbn [fst snd length] in *.
+      split; [lia|]. constructor; [apply (norm_int_in_range _ _ _ E2)|exact H2].
+    + destruct (slice_pos (mm c) a b s) as [[[st sp] len]|] eqn:E1; [|discriminate].
+      destruct (slice_pos (nm c) a2 b2 s2) as [[[st2 sp2] len2]|] eqn:E2; [|discriminate].
+      destruct (pair_fs ct rt lt) as [[[fs' shp'] ks']|] eqn:E; [|discriminate]. inversion H; subst.
+      cbn [kept_of app map snd length] in Hl, HF.
+      destruct is' as [|i' it]; [discriminate|]. destruct js' as [|j' jt]; [inversion HF|]. inversion HF as [|? ? ? ? Hj HF']; subst. simpl in Hl.
+      destruct (IH rt lt fs' shp' ks' it jt E ltac:(lia) HF') as [H1 H2].
+      cbn [pair_src shapeN map hd tl]. fold (shapeN ct). rewrite E1, E2. destruct (pair_src ct rt lt it jt) as [ri ci]. cbn [fst snd length] in *.
+      split; [lia|]. constructor; [apply (proj2 (slice_pos_in_range _ _ _ _ _ _ _ E2)); exact Hj|exact H2].
+Qed.
+
+Lemma kept_pos {A} (l : list A) : forall ks, length ks = length l -> existsb (fun b => b) ks = true -> (0 < length (kept_of l ks))%nat.
+Proof.
+  induction l as [|a t IH]; intros [|b kt] Hl Hex; simpl in *; try discriminate.
+  destruct b; [simpl; lia|]. simpl in Hex. cbn [app]. apply IH; [lia|exact Hex].
+Qed.
+
+Lemma getitem_ttm_tail (cores : tt R) (shp : list (nat * nat)) (excl : list nat) : cores <> [] -> excl <> [] ->
+  match cores with
+  | [] => GE EPyIndex
+  | _ => let y := reduce_dims cores excl in
+         match excl with
+         | [] => match y with c :: _ => GS (e3 c 0 0 0)%nat | [] => GE EModel end
+         | _ => let ks := keep_shapes 0 cores shp excl in GM (unflatM (map fst ks) (map snd ks) y)
+         end
+  end = GM (unflatM (map fst (keep_shapes 0 cores shp excl)) (map snd (keep_shapes 0 cores shp excl)) (reduce_dims cores excl)).
+Proof. intros Hc He. destruct cores; [congruence|]. destruct excl; [congruence|]. reflexivity. Qed.
+
+Lemma fullidx_length (cs : tt R) : forall e idx i, length (fullidx i cs e idx) = length cs.
+Proof. induction cs as [|c t IH]; intros e idx i; [reflexivity|]. cbn [fullidx]. destruct (keptb i c e); cbn [length]; rewrite IH; reflexivity. Qed.
+
+(* THE COMPOSITE STATEMENT FOR OPERATORS: a tuple of row items followed by as many column items, each pair (integer, integer) or (slice, slice) (negative
+   integers, steps, clipped bounds), at least one pair of slices: A[rows, cols] is a TT matrix y whose row / column modes are the lengths of the slice pairs
+   and  y[is', js'] = A[src rows, src cols]  for every position of the result - every order, mode sizes (rectangular), rank profile *)
+Theorem getitem_ttm_int_slice (x : ttm R) rows cols fs shp ks : wf4 x -> pair_fs x rows cols = Some (fs, shp, ks) -> existsb (fun b => b) ks = true ->
+  exists y, getitem_ttm x (rows ++ cols) = GM y /\
+    forall is' js', length is' = length (kept_of shp ks) -> Forall2 lt js' (map snd (kept_of shp ks)) ->
+      entry4 y is' js' = entry4 x (fst (pair_src x rows cols is' js')) (snd (pair_src x rows cols is' js')).
+Proof.
+  intros W H Hex.
+  destruct (pair_fs_lengths x rows cols fs shp ks H) as [Lr [Lc [Lf [Ls Lk]]]].
+  unfold getitem_ttm. rewrite (pair_fs_no_ell x rows cols _ H). cbn [length Nat.ltb Nat.leb].
+  assert (Hlen : length (rows ++ cols) = (2 * length x)%nat) by (rewrite app_length; lia).
+  rewrite Hlen. replace (Nat.odd (2 * length x)) with false by (symmetry; rewrite Nat.odd_mul; reflexivity).
+  replace (2 * length x / 2)%nat with (length x) by (symmetry; rewrite Nat.mul_comm; apply Nat.div_mul; lia).
+  assert (H1 : firstn (length x) (rows ++ cols) = rows) by (rewrite firstn_app, Lr, Nat.sub_diag; cbn [firstn]; rewrite app_nil_r; rewrite <- Lr; apply firstn_all).
+  assert (H2 : firstn (length x) (skipn (length x) (rows ++ cols)) = cols).
+  { rewrite skipn_app, Lr, Nat.sub_diag. cbn [skipn]. rewrite (skipn_all2 rows) by lia. cbn [app]. rewrite <- Lc. apply firstn_all. }
+  rewrite H1, H2. rewrite (gi_loop4_pairs x rows cols [] [] 0%nat [] fs shp ks H). cbn [rev app].
+  assert (Hmemb : forall p, (p < length ks)%nat -> memb (0 + p) (true_positions 0 ks) = nth p ks false) by (intros; apply memb_true_positions; assumption).
+  assert (Wc : wf (remaps fs (flatM x))) by (apply remaps_wf; [rewrite flatM_length; lia|apply flatM_wf; exact W]).
+  pose proof (getitem_ttm_tail (remaps fs (flatM x)) shp (true_positions 0 ks) (proj1 Wc) (true_positions_nonempty ks 0%nat Hex)) as HT.
+  cbv zeta in HT. cbv beta iota zeta. rewrite HT. clear HT.
+  rewrite (keep_shapes_pairs x rows cols fs shp ks 0%nat _ H Hmemb).
+  eexists. split; [reflexivity|].
+  intros is' js' Hli HF.
+  destruct (fullidx_pairs x rows cols fs shp ks 0%nat _ is' js' H Hmemb Hli HF) as [Hn Hmap].
+  assert (Hpos : (0 < length (kept_of shp ks))%nat).
+  { apply kept_pos; [lia|exact Hex]. }
+  assert (Hlj : length js' = length (kept_of shp ks)) by (apply Forall2_length in HF; rewrite map_length in HF; exact HF).
+  unfold entry4 at 1. rewrite slices4_unflatM; rewrite ?map_length; try assumption; try reflexivity.
+  2:{ rewrite reduce_dims_length by (rewrite Hn; exact Hpos). exact Hn. }
+  change (chainM (slices (reduce_dims (remaps fs (flatM x)) (true_positions 0 ks)) (merge_idx (map snd (kept_of shp ks)) is' js')) 0%nat 0%nat)
+    with (entry (reduce_dims (remaps fs (flatM x)) (true_positions 0 ks)) (merge_idx (map snd (kept_of shp ks)) is' js')).
+  rewrite reduce_dims_full; [|rewrite Hn; exact Hpos|rewrite Hn, merge_length; rewrite ?map_length; auto].
+  rewrite remaps_entry; [|rewrite flatM_length; lia|rewrite fullidx_length, remaps_length; rewrite ?flatM_length; lia].
+  rewrite Hmap.
+  destruct (pair_src_props x rows cols fs shp ks is' js' H Hli HF) as [P1 P2].
+  symmetry. apply entry4_flat; assumption.
+Qed.
+
 End GetitemTTMP.
